@@ -23,10 +23,26 @@ def seed():
         return 20261004
 
 
-def tree_hash():
-    """hash of everything a check's outcome can depend on: VSG's code, docs, fixtures, and the framework itself"""
+_COMMON_FILES = ["harness/common.py", "harness/tlc.py", "harness/orchestrate.py", "harness/corpus.py", "harness/findings.py", "harness/vsgenv.py", "harness/abstraction.py",
+                 "harness/hooks.py", "harness/ruledocs.py", "spec/Tokens.tla"]
+
+
+def tree_hash(family_files=None):
+    """hash of everything a check's outcome can depend on: VSG's code, docs, fixtures, and the part of the framework the
+    family uses (family_files: paths relative to /verif; None = the whole harness and spec directories)"""
     h = hashlib.sha1()
-    roots = [(REPO, "vsg"), (REPO, "docs"), (REPO, "tests"), (REPO, "bin"), (VERIF, "harness"), (VERIF, "spec")]
+    roots = [(REPO, "vsg"), (REPO, "docs"), (REPO, "tests"), (REPO, "bin")]
+    if family_files is None:
+        roots += [(VERIF, "harness"), (VERIF, "spec")]
+    else:
+        for rel in sorted(set(_COMMON_FILES + list(family_files))):
+            fp = os.path.join(VERIF, rel)
+            h.update(rel.encode())
+            try:
+                with open(fp, "rb") as f:
+                    h.update(f.read())
+            except OSError:
+                h.update(b"<missing>")
     for base, sub in roots:
         top = os.path.join(base, sub)
         for dirpath, dirnames, filenames in os.walk(top):
